@@ -1121,6 +1121,21 @@ pub fn roamer(rng: &mut Rng, big: bool) -> String {
                 a.raw("[-]");
                 a.raw(*rng.pick(&[".", "<.>", ">.<", "<.>>.<", "<<.>>.>."][..]));
             }
+            7 if rng.coin() => {
+                // read the cell at offset d, scan on the cell at offset 0, then clear offset d in
+                // the new frame: the same numeric offset names two different cells
+                let d = *rng.pick(&[1i64, 1, -1, 2, -2]);
+                let go = |a: &mut Asm, n: i64| a.raw(&(if n > 0 { ">" } else { "<" }).repeat(n.unsigned_abs() as usize));
+                a.raw(*rng.pick(&[",", "+", ",+", ""][..]));
+                go(&mut a, d);
+                a.raw(*rng.pick(&[",", ",+", "++"][..]));
+                a.raw(*rng.pick(&["[->+>+<<]>>[-<<+>>]<<", "[-<+<+>>]<<[->>+<<]>>", "[->>+>+<<<]>>>[-<<<+>>>]<<<"][..]));
+                go(&mut a, -d);
+                a.raw(*rng.pick(&["[>]", "[<]", "[>>]", "[<<]"][..]));
+                go(&mut a, d);
+                a.raw("[-]");
+                a.raw(*rng.pick(&[".", "<.>", ">.<", ".>[>]<[.[-]]", "<.>>.<"][..]));
+            }
             9 if rng.coin() => {
                 // a trail of cells holding 256 (zero in their low byte on wide cells), then a scan over it
                 let n = rng.range(1, 6);
